@@ -75,8 +75,10 @@ func (m *Map[K, V]) LoadAndDelete(key K) (V, bool) {
 // LoadAndDelete loads and deletes the value for the key.
 func (m *Map[K, V]) LoadAndDeleteAll() map[K]V {
 	m.mutex.Lock()
-	data := m.data
-	m.data = make(map[K]V)
+	// hand out a copy and empty the map in place: a Range that is between two
+	// of its steps keeps iterating m.data and must see the entries gone
+	data := maps.Clone(m.data)
+	clear(m.data)
 	m.mutex.Unlock()
 	return data
 }
